@@ -241,7 +241,7 @@ PROPS['C02'] = {
     'level': 'proof',
     'technique': 'Lean 4 theorems on a model of SignedObject::validate_at, the signed-attribute parser, SignedAttrs::encode_verify (proved equal to the DER SET OF encoding for every admissible size) and the ROA/ASPA coverage checks, composed with the C01 and C03 models (exact acceptance iff, every single fault rejects, coverage iff set inclusion) + differential check of the real code on objects assembled by an independent RFC 5652/6488 encoder',
     'claim': 'Lean 4 proofs: encode_verify(attrs) = 31 <DER length> attrs for every length below 65536 (false for the code before fix abf0291, which wrote 02 hi lo from 128 octets on); validate_at accepts iff the attributes are exactly one content-type (= eContentType), message-digest and signing-time, sid = EE SKI, digest attribute = digest of the content, signature by the EE key over the DER SET OF, and the EE certificate validates under the issuer (C01); Roa::process iff additionally the CRL verdict is ok and every address of every prefix is in the validated EE resources (hence in the issuer\'s); ASPA iff customer in the AS resources, no inheritance, no IP resources. Partial as C01: signatures, SHA-256 (checked against an independent Lean SHA-256 in the oracle) and the CMS/X.509 envelopes are inputs of the model, tied by the correspondence run.',
-    'note': 'Relaxed mode (session 10): the relaxed operations sor / roar take their model verdict from the octets through the mode-parametrized decoder at ber = true, half of them re-written with BER liberties outside the signed octets; theorems accepted_object_octets_either_mode, claimsCanon_of_octets_either_mode, parseAttrs_any_mode. ' +
+    'note': 'Relaxed mode (session 10): the relaxed operations sor / roar take their model verdict from the octets through the mode-parametrized decoder at ber = true, half of them re-written with BER liberties outside the signed octets; theorems accepted_object_octets_either_mode, claimsCanon_of_octets_either_mode, parseAttrs_any_mode; object_octets_accepted_iff (strict decoding: validation succeeds iff the conditions hold for what was read from the octets). ' +
              'ground truth (what was signed with which key, attribute bytes, digest, prefixes) comes from the harness encoder. The DER-length shape of encode_verify and the EE validation composition are re-read from the source on every run. Roa::process/Aspa::process evaluate at the wall clock; those cases use 2000-2100 validity windows.',
     'shards': {'quick': 4, 'thorough': 16},
     'budget': {'quick': 900, 'thorough': 7200},
@@ -254,7 +254,7 @@ PROPS['C10'] = {
     'level': 'proof',
     'technique': 'Lean 4 theorems on a model of SignedMessage::validate_at (inspect, verify with encode_verify proved to be the DER SET OF of all signed attributes, IdCert::validate_ee_at, SignedMessageCrl::validate, verify_not_revoked) and of SignedMessage::create (exact acceptance iff, every single fault rejects, created messages validate iff own key and inside the validity) + differential check of the real code on library-made messages and on messages assembled by an independent RFC 5652 encoder with 0-6 extra signed attributes',
     'claim': 'Lean 4 proofs: validate_at accepts iff protocol content type, exactly one content-type/message-digest/signing-time among the signed attributes (others admitted and kept in the signed bytes), digest attribute = digest of the content, signature by the EE key over 31 <DER length> <all attributes> for every size below 65536, sid = EE SKI = hash of the EE key, EE certificate signed by the peer key, inside its validity, not cA, AKI (if present) = peer key; CRL with matching algorithms signed by the peer key, thisUpdate <= t <= nextUpdate, AKI (if present) = peer key, EE serial not listed. Messages made by create() validate iff the validating key is the issuing key and nb <= t <= na. Partial: RSA, SHA-256 (checked against an independent Lean SHA-256), X.509/CMS envelopes are inputs of the model tied by the correspondence run.',
-    'note': 'Relaxed mode (session 10): the protocol wrappers decode in relaxed mode; op msgr = SignedMessage::decode(strict = false) + validate_at with the model verdict from the octets (decodeSigMsgM true), half of the messages re-written with BER liberties outside the signed octets; theorem accepted_message_octets_either_mode. ' +
+    'note': 'Relaxed mode (session 10): the protocol wrappers decode in relaxed mode; op msgr = SignedMessage::decode(strict = false) + validate_at with the model verdict from the octets (decodeSigMsgM true), half of the messages re-written with BER liberties outside the signed octets; theorems accepted_message_octets_either_mode, message_octets_accepted_iff (strict decoding: validates iff the conditions hold for what was read), created_message_octets (what SignedMessage::create writes is read back and validates iff the peer is the issuing key and the time is inside the validity - writer model, reader model and validation composed). ' +
              'ground truth comes from the harness encoder (who signed what, windows, serial lists). The validate_at step list, the IdCert EE checks and the CRL window comparison are re-read from the source on every run.',
     'shards': {'quick': 4, 'thorough': 16},
     'budget': {'quick': 900, 'thorough': 7200},
